@@ -369,21 +369,22 @@ package schema
 //@   ensures len(result) == sch_nuniques(self) && forall(i, 0, len(result), result[i] == sch_unique(self, i))
 //@ func getUniqueKey
 //@   assumed
-//@   ensures result == unique_key(xn_ident(c), uniques)
+//@   ensures result1 == unique_has(xn_ident(c), uniques) && result0 == unique_key(xn_ident(c), uniques)
 //@ func uniqueString
 //@   assumed
 //@ define ukey(c, a, ui) = unique_key(xn_childident(c, a), sch_unique(xn_schema(c), ui))
-//@ define clash(c, ui, hi) = exists(a, 0, hi, exists(b, a+1, hi, ukey(c, a, ui) != "" && ukey(c, a, ui) == ukey(c, b, ui)))
+//@ define uhas(c, a, ui) = unique_has(xn_childident(c, a), sch_unique(xn_schema(c), ui))
+//@ define clash(c, ui, hi) = exists(a, 0, hi, exists(b, a+1, hi, uhas(c, a, ui) && uhas(c, b, ui) && ukey(c, a, ui) == ukey(c, b, ui)))
 //@ func checkUnique
 //@   requires c != nil && 0 <= valType && valType <= 3 && implies(!skips(c, valType), is(xn_schema(c), List))
 //@   ensures implies(skips(c, valType), result2 && len(result1) == 0)
 //@   ensures implies(!skips(c, valType), result2 == (len(result1) == 0))
 //@   ensures implies(!skips(c, valType), result2 == !exists(ui, 0, sch_nuniques(xn_schema(c)), clash(c, ui, xn_nchildren(c))))
 //@   loop 0 invariant len(errs) >= 0 && isfresh(errs) && iff(len(errs) > 0, exists(ui, 0, loopidx+1, clash(c, ui, xn_nchildren(c))))
-//@   loop 1 invariant forall(a, 0, loopidx+1, implies(ukey(c, a, outer(loopidx)+1) != "", len(m[ukey(c, a, outer(loopidx)+1)]) >= 1))
-//@   loop 1 invariant forall(a, 0, loopidx+1, forall(b, a+1, loopidx+1, implies(ukey(c, a, outer(loopidx)+1) != "" && ukey(c, a, outer(loopidx)+1) == ukey(c, b, outer(loopidx)+1), len(m[ukey(c, a, outer(loopidx)+1)]) >= 2)))
-//@   loop 1 invariant forallstr(k, implies(len(m[k]) >= 1, k != "" && exists(a, 0, loopidx+1, ukey(c, a, outer(loopidx)+1) == k)))
-//@   loop 1 invariant forallstr(k, implies(len(m[k]) >= 2, exists(a, 0, loopidx+1, exists(b, a+1, loopidx+1, ukey(c, a, outer(loopidx)+1) == k && ukey(c, b, outer(loopidx)+1) == k))))
+//@   loop 1 invariant forall(a, 0, loopidx+1, implies(uhas(c, a, outer(loopidx)+1), len(m[ukey(c, a, outer(loopidx)+1)]) >= 1))
+//@   loop 1 invariant forall(a, 0, loopidx+1, forall(b, a+1, loopidx+1, implies(uhas(c, a, outer(loopidx)+1) && uhas(c, b, outer(loopidx)+1) && ukey(c, a, outer(loopidx)+1) == ukey(c, b, outer(loopidx)+1), len(m[ukey(c, a, outer(loopidx)+1)]) >= 2)))
+//@   loop 1 invariant forallstr(k, implies(len(m[k]) >= 1, exists(a, 0, loopidx+1, uhas(c, a, outer(loopidx)+1) && ukey(c, a, outer(loopidx)+1) == k)))
+//@   loop 1 invariant forallstr(k, implies(len(m[k]) >= 2, exists(a, 0, loopidx+1, exists(b, a+1, loopidx+1, uhas(c, a, outer(loopidx)+1) && uhas(c, b, outer(loopidx)+1) && ukey(c, a, outer(loopidx)+1) == k && ukey(c, b, outer(loopidx)+1) == k))))
 //@   loop 1 invariant forallstr(k, iff(inmap(m, k), len(m[k]) >= 1))
 //@   loop 1 invariant len(looprange) == xn_nchildren(c) && forall(i, 0, len(looprange), looprange[i] != nil && xn_ident(looprange[i]) == xn_childident(c, i))
 //@   loop 1 invariant forallstr(k, implies(inmap(m, k), sref(m[k]) > sref(looprange)))
